@@ -11,7 +11,9 @@ type Writer struct {
 	// Mode "partial": the write that crosses the budget is cut there and
 	// returns (accepted, Err). Mode "boundary": the write that crosses the
 	// budget is accepted whole and the NEXT non-empty write fails with (0, Err)
-	// (failure at a call boundary, e.g. between header and body).
+	// (failure at a call boundary, e.g. between header and body). Mode "eager":
+	// like partial, but when a write ends EXACTLY at the budget the error is
+	// reported together with that (fully accepted) write: (len(p), Err).
 	Mode   string
 	Sticky bool // after the failure every later non-empty write fails; otherwise the writer recovers (transient)
 	Err    error
@@ -69,6 +71,12 @@ func (w *Writer) Write(p []byte) (int, error) {
 			w.Budget -= n
 		}
 		return len(p), nil
+	}
+	if w.Mode == "eager" && n == w.Budget {
+		w.Got = append(w.Got, p...)
+		w.Failed = true
+		w.Fired["wr.fail_with_full_write"]++
+		return len(p), w.Err
 	}
 	// partial
 	if n <= w.Budget {
